@@ -35,7 +35,7 @@ def run(ctx):
     corp = harness.corpus_files()
     rng.shuffle(corp)
     texts = [t for _, t in corp[:ctx.budget(60, 451)] if len(t) < ctx.budget(20000, 10**7)]
-    for doc in harness.gen_documents(rng, ctx.budget(150, 2500), max_depth=4, contract=True):
+    for doc in harness.gen_documents(rng, ctx.budget(150, 2500), max_depth=4, contract=True, pool="parseable"):
         texts.append(docs.render(doc, harness.random_layout(rng))[0])
     cases = []
     for i, t in enumerate(texts):
@@ -52,10 +52,7 @@ def run(ctx):
             d1 = sweep.fast_loads(t1)
         except Exception:
             continue                  # C01 / C03 territory
-        if rt.first_diff(rt.plain_all(d), rt.plain_all(d1)):
-            continue                  # C01 territory (known findings there)
         ctx.note_case(t1, nontrivial=len(t1.split()) > 6)
-        cases.append((o, d1, t1))
         try:
             t2 = pp.pprint(copy.deepcopy(d1)) if i % 7 else mappyfile.dumps(copy.deepcopy(d1), **o)
         except Exception as ex:
@@ -64,10 +61,20 @@ def run(ctx):
         if t2 != t1:
             la, lb = t1.split(o["newlinechar"]), t2.split(o["newlinechar"])
             j = next((k for k, (x, y) in enumerate(zip(la, lb)) if x != y), min(len(la), len(lb)))
-            key = (la[j].split() or ["?"])[0] if j < len(la) else "?"
-            ctx.violation("format-twice-differs:" + key.lower(), "dumps(loads(t)) differs from t at line %d: %r -> %r" % (j + 1, la[j] if j < len(la) else None, lb[j] if j < len(lb) else None),
+
+            def twice_differs(c):
+                try:
+                    a = pp.pprint(copy.deepcopy(c))
+                    return pp.pprint(sweep.fast_loads(a)) != a
+                except Exception:
+                    return False
+            small = rt.shrink_dict(d, twice_differs)
+            ctx.violation("format-twice-differs:" + rt.slot_symptom(small),
+                          "dumps(loads(t)) differs from t at line %d: %r -> %r; minimal dictionary prints as %r"
+                          % (j + 1, la[j] if j < len(la) else None, lb[j] if j < len(lb) else None, pp.pprint(copy.deepcopy(small))),
                           {"text": t1, "options": o})
             continue
+        cases.append((o, d1, t1))
         try:
             d2 = sweep.fast_loads(t2)
         except Exception as ex:
